@@ -1,8 +1,8 @@
 package main
 
 import (
-	"sort"
 	"go/types"
+	"sort"
 	"strings"
 
 	"golang.org/x/tools/go/ssa"
